@@ -205,6 +205,11 @@ func (g *game) Pass(playerIdx int) (*pokerface.GameState, error) {
 		return g.GetGameState(), err
 	}
 
+	// the hand engine silently ignores a pass that is not allowed, so it is refused here
+	if !g.gs.HasAction(playerIdx, "pass") {
+		return g.GetGameState(), ErrGameInvalidAction
+	}
+
 	gs, err := g.backend.Pass(g.gs)
 	if err != nil {
 		return g.GetGameState(), err
